@@ -163,8 +163,11 @@ type env struct {
 	tc                 rhp4.TransportClient
 	signer             *renterSigner
 	prices             proto4.HostPrices
+	priceTables        []proto4.HostPrices // host-signed: normal, all zero, unaffordable
 	cs                 consensus.State
-	cid                types.FileContractID
+	cid                types.FileContractID // the contract the attempts work on
+	cid2               types.FileContractID // a second contract of the same renter on the same host
+	hostAddr           types.Address
 	account            proto4.Account
 
 	pool     []types.Hash256          // sectors the host stores
@@ -302,17 +305,26 @@ func newEnv(r *rng.R, poolSize int) *env {
 	settings, err := rhp4.RPCSettings(context.Background(), e.tc)
 	must(err, "settings")
 	e.prices = settings.Prices
+	// two more host-signed price tables: the host honours every table it signed
+	e.priceTables = []proto4.HostPrices{e.prices}
+	normal := sr.RHP4Settings()
+	for _, hp := range []proto4.HostPrices{
+		{}, // every price zero
+		{ContractPrice: types.Siacoins(1), StoragePrice: types.Siacoins(1), IngressPrice: types.Siacoins(1), EgressPrice: types.Siacoins(1), Collateral: types.NewCurrency64(200), FreeSectorPrice: types.Siacoins(5000)},
+	} {
+		alt := normal
+		alt.Prices = hp
+		sr.Update(alt)
+		st, err := rhp4.RPCSettings(context.Background(), e.tc)
+		must(err, "settings")
+		e.priceTables = append(e.priceTables, st.Prices)
+	}
+	sr.Update(normal)
 	e.signer = &renterSigner{e.rw, e.renterKey}
 
-	form, err := rhp4.RPCFormContract(context.Background(), e.tc, e.cm, e.signer, e.cm.TipState(), e.prices, e.hostKey.PublicKey(), settings.WalletAddress, proto4.RPCFormContractParams{
-		RenterPublicKey: e.renterKey.PublicKey(),
-		RenterAddress:   e.rw.Address(),
-		Allowance:       types.Siacoins(1000),
-		Collateral:      types.Siacoins(2000),
-		ProofHeight:     e.cm.Tip().Height + 1000,
-	})
-	must(err, "form contract")
-	e.cid = form.Contract.ID
+	e.hostAddr = settings.WalletAddress
+	e.cid = e.formContract()
+	e.cid2 = e.formContract()
 	e.mine(types.VoidAddress, 1)
 	e.cs = e.cm.TipState()
 	e.account = proto4.Account(e.renterKey.PublicKey())
@@ -335,6 +347,42 @@ func newEnv(r *rng.R, poolSize int) *env {
 	e.quiesce()
 	e.rec.takeProblems()
 	return e
+}
+
+func (e *env) formContract() types.FileContractID {
+	form, err := rhp4.RPCFormContract(context.Background(), e.tc, e.cm, e.signer, e.cm.TipState(), e.prices, e.hostKey.PublicKey(), e.hostAddr, proto4.RPCFormContractParams{
+		RenterPublicKey: e.renterKey.PublicKey(),
+		RenterAddress:   e.rw.Address(),
+		Allowance:       types.Siacoins(1000),
+		Collateral:      types.Siacoins(2000),
+		ProofHeight:     e.cm.Tip().Height + 1000,
+	})
+	must(err, "form contract")
+	return form.Contract.ID
+}
+
+// renew renews the current contract through the real renter function and makes the renewal
+// the current contract; returns the old id.
+func (e *env) renew(existing types.V2FileContract) (old types.FileContractID, err error) {
+	old = e.cid
+	err = func() (err error) {
+		defer func() {
+			if r := recover(); r != nil {
+				err = fmt.Errorf("panic: %v", r)
+			}
+		}()
+		_, err = rhp4.RPCRenewContract(context.Background(), e.tc, e.cm, e.signer, e.cm.TipState(), e.prices, e.hostAddr, existing, proto4.RPCRenewContractParams{
+			ContractID:  old,
+			Allowance:   types.Siacoins(500),
+			Collateral:  types.Siacoins(1000),
+			ProofHeight: existing.ProofHeight + 200,
+		})
+		return err
+	}()
+	if err == nil {
+		e.cid = old.V2RenewalID()
+	}
+	return old, err
 }
 
 func (e *env) close() {
@@ -386,18 +434,24 @@ func encodeRev(rev types.V2FileContract) []byte {
 	return buf.Bytes()
 }
 
+// contractLocked is the panic value of snapshot when the contract stays locked although
+// every handler has returned (recognised by type in runC09).
+type contractLocked struct{ err error }
+
 // snapshot reads the reference contractor directly (not through the server).
-func (e *env) snapshot() snap {
+func (e *env) snapshot() snap { return e.snapshotOf(e.cid) }
+
+func (e *env) snapshotOf(cid types.FileContractID) snap {
 	var st rhp4.RevisionState
 	var unlock func()
 	var err error
 	for i := 0; ; i++ {
-		st, unlock, err = e.ec.LockV2Contract(e.cid)
+		st, unlock, err = e.ec.LockV2Contract(cid)
 		if err == nil {
 			break
 		}
 		if i > 20000 {
-			panic("c09: contract stays locked: " + err.Error())
+			panic(contractLocked{err})
 		}
 		time.Sleep(100 * time.Microsecond)
 	}
